@@ -67,7 +67,11 @@ def run_one(name, path, budget=None):
         if r.returncode != 0:
             return [(name, '-', 'PATCH-FAILED', 0, r.stdout + r.stderr)]
         for prop in props:
-            env = dict(os.environ, VERIF_REPO=scratch)
+            # evidence and replay files of mutant runs go to the scratch directory: the
+            # files under /verif describe the real tree only
+            env = dict(os.environ, VERIF_REPO=scratch,
+                       VERIF_EVIDENCE_DIR=os.path.join(scratch, 'evidence'),
+                       VERIF_REPLAY_DIR=os.path.join(scratch, 'replays'))
             env.pop('PYTHONHASHSEED', None)
             if budget:
                 env['VERIF_BUDGET_S'] = str(budget)
@@ -90,13 +94,6 @@ def main(argv):
     if pats:
         allm = [(n, p) for n, p in allm if any(fnmatch.fnmatch(n, q) for q in pats)]
     rows = []
-    before = set(os.listdir(os.path.join(VERIF, 'replays'))) if os.path.isdir(os.path.join(VERIF, 'replays')) else set()
-    ev_backup = {}
-    evdir = os.path.join(VERIF, 'evidence')
-    for f in os.listdir(evdir):
-        if f.endswith('.json'):
-            with open(os.path.join(evdir, f)) as fh:
-                ev_backup[f] = fh.read()
     try:
         for name, path in allm:
             for row in run_one(name, path):
@@ -104,14 +101,7 @@ def main(argv):
                 print('%-44s %-4s %-18s %6.1fs  %s' % row)
                 sys.stdout.flush()
     finally:
-        # evidence must describe the real tree: restore what the mutant runs overwrote
-        for f, txt in ev_backup.items():
-            with open(os.path.join(evdir, f), 'w') as fh:
-                fh.write(txt)
-        rdir = os.path.join(VERIF, 'replays')
-        if os.path.isdir(rdir):
-            for f in set(os.listdir(rdir)) - before:
-                os.remove(os.path.join(rdir, f))
+        pass
     missed = [r for r in rows if r[2] != 'DETECTED']
     print('%d mutant/check pairs, %d detected, %d not' % (len(rows), len(rows) - len(missed), len(missed)))
     rpath = os.path.join(VERIF, 'mutants', 'RESULTS.json')
